@@ -55,6 +55,11 @@ INFO = {
     "C17-3": ("create_or_get_logger constructs the Logger outside the lock and does not re-check the name", "two threads create-or-get the same unregistered name at the same moment"),
     "C18-3": ("init_backtrace stores the flush level only when it is not None", "re-initialisation from a level to None, stored backtrace statements, then an ordinary statement at/above the old level"),
     "C19-3": ("JsonSink replaces new lines in the object only when the text message contains one", "a value ending in a new line at the end of the message (stripped from the message), or a surplus argument with a new line"),
+    "C07-3": ("reclaim lambda of _cleanup_invalidated_thread_contexts rewritten as ?: (precedence): unbounded queues lose the 'no cached transit events' condition", "a flush_log() in flight (direct or from the signal handler), a thread that logs right after it was issued and exits, the backend caching that thread's statements before it processes the Flush event"),
+    "C08-3": ("failure counter bumped for every refused event except Flush / LoggerRemovalRequest", "BoundedDropping queue full when init_backtrace() / flush_backtrace() is called: every retry of the control request is counted as a dropped message"),
+    "C09-3": ("sticky _max_capacity_reached flag in UnboundedSPSCQueue::_handle_full_queue, not reset by shrink()", "an oversized statement refused while the node is small, or growth to the maximum followed by shrink(); afterwards a statement larger than the current node is refused for ever"),
+    "C14-3": ("recovery scan wrapped in one try/catch, per-entry stoul guards removed", "append mode, Index naming, a sibling <stem>.<non-number><ext> (or a stem with a dot) met before a rotated file in directory order: recovery stops, the next rotation clobbers unrecovered files"),
+    "C20-3": ("idle pass passes 'all queues empty' into the reclaim scan, which then skips the per-context check for the first removal", "a known thread logs once more and exits between the backend's idle emptiness check and the reclaim scan (yield point Y5)"),
     "C17-2": ("SinkManager::_insert_sink uses upper_bound", "a sink expires without a logger removal, the same sink name is created again and looked up before any logger is removed"),
 }
 for name, (change, needs) in INFO.items():
